@@ -34,7 +34,7 @@ COMPONENTS = {
     'stub': ['SimLoop', 'SimFS (os/mkstemp/pyaio)', 'SimRedis',
              'SimObjectStore/SimMsgQueue (aws.py method set)'],
 }
-BUDGET = {'quick': 15000, 'thorough': 300000}
+BUDGET = {'quick': 25000, 'thorough': 300000}
 PROBES = ['overlap', 'load-overlaps-mutation', 'uuid-collision-injected',
           'get-after-remove', 'delivered-round', 'fault-config',
           'backend:dict', 'backend:disk', 'backend:redis', 'backend:cloud']
